@@ -43,6 +43,8 @@ def program_of(c):
 
 def describe(c):
     rd = T.reader(c)    # harness/reuse.h: every other case reads with a reader object that read / refused a primer text before
+    if T.primed(c):     # ... and writes with an AspifOutput object that has written another (incremental, abandoned) program before; that text is discarded
+        rd += ' writer=reused'
     if c[0] < 2:
         p = program_of(c)
         s = C.pretty(p)
@@ -259,7 +261,7 @@ RULE = ('cases = (read mode, BUF_SIZE in {4096,16,32,67}, call sequence | text);
         '0, 2^31, 2^32-1, empty lists, strings with blanks/newlines/CR/digits/all byte values), strings around k*BUF_SIZE, random programs of 1-4 steps (props/calls.py), '
         'programs of 3-40 KiB, programs with one argument out of range and ill-formed traces (correspondence only), accepted/faulty texts for write-what-was-read; '
         ''
-        'every other case (hash of the case) is read by a reader OBJECT that before read or REFUSED one of the 8 aspif primer texts of harness/reuse.h (accepted incremental ones; refused inside a rule / theory atom / string / second step / problem line, as extra input); '
+        'every other case (hash of the case) is read by a reader OBJECT that before read or REFUSED one of the 8 aspif primer texts of harness/reuse.h (accepted incremental ones; refused inside a rule / theory atom / string / second step / problem line, as extra input) and written by an AspifOutput OBJECT that has written another (incremental, abandoned) program before; '
         'non-trivial = at least two directives written or an accepted text with directives; distinct = distinct case tuples')
 TRUSTED_BASE = ['props/aspif_ref.py norm/wf_call/wf_trace (python statement of the round-trip claim used as oracle on the implementation)',
                 'coq/C09/Spec.v abstract stream (C09 proves the real BufferedStream refines it; not re-proved here)',
